@@ -191,6 +191,7 @@ func driveBatch(seed int64, n int, params map[string]string) []Obj {
 		env := cwf.EnvToJ(g.env()).(Obj)
 		nv := g.r.Intn(4)
 		used := map[string]string{} // name -> "ent" or "val"
+		leakAttr := ""              // the attribute of context.r that holds a variable, if any
 		ctx := env["c"].(Obj)["f"].(Obj)
 		for k := 0; k < nv; k++ {
 			name := names[k]
@@ -218,7 +219,8 @@ func driveBatch(seed int64, n int, params map[string]string) []Obj {
 					}
 				case 5:
 					if used[name] != "ent" {
-						ctx["r"] = Obj{"k": "rec", "f": Obj{pick(g, attrNames): unk(name), "n": cwf.ValueToJ(g.long())}}
+						leakAttr = pick(g, attrNames)
+						ctx["r"] = Obj{"k": "rec", "f": Obj{leakAttr: unk(name), "n": cwf.ValueToJ(g.long())}}
 						used[name] = "val"
 					}
 				default:
@@ -289,6 +291,31 @@ func driveBatch(seed int64, n int, params map[string]string) []Obj {
 				p.Effect = ast.EffectForbid
 			}
 			pols = append(pols, Obj{"id": fmt.Sprintf("rel%d", k), "policy": cwf.PolicyToJ(p)})
+		}
+		// literals and branches over a collection that still holds a variable next to the variable itself: true for
+		// every value of the variable, so a forbid that is lost or a permit that is dropped shows at once
+		if r, ok := ctx["r"].(Obj); ok && leakAttr != "" && r["k"] == "rec" {
+			cv := ast.NodeTypeVariable{Name: "context"}
+			cr := ast.NodeTypeAccess{StrOpNode: ast.StrOpNode{Arg: cv, Value: "r"}}
+			cra := ast.NodeTypeAccess{StrOpNode: ast.StrOpNode{Arg: cr, Value: types.String(leakAttr)}}
+			bodies := []ast.IsNode{
+				ast.NodeTypeContains{BinaryNode: bin(ast.NodeTypeSet{Elements: []ast.IsNode{cr, cra}}, cr)},
+				ast.NodeTypeEquals{BinaryNode: bin(ast.NodeTypeIfThenElse{If: ast.NodeTypeEquals{BinaryNode: bin(cra, cra)}, Then: cr,
+					Else: ast.NodeValue{Value: types.NewRecord(types.RecordMap{})}}, cr)},
+				ast.NodeTypeEquals{BinaryNode: bin(ast.NodeTypeAccess{StrOpNode: ast.StrOpNode{Arg: ast.NodeTypeRecord{Elements: []ast.RecordElementNode{
+					{Key: "p", Value: cr}, {Key: "q", Value: cra}}}, Value: "p"}}, cr)},
+			}
+			for k, body := range bodies {
+				if g.r.Intn(2) == 0 {
+					continue
+				}
+				p := &ast.Policy{Effect: ast.EffectForbid, Principal: ast.ScopeTypeAll{}, Action: ast.ScopeTypeAll{}, Resource: ast.ScopeTypeAll{},
+					Conditions: []ast.ConditionType{{Condition: ast.ConditionWhen, Body: body}}}
+				if g.r.Intn(3) == 0 {
+					p.Effect = ast.EffectPermit
+				}
+				pols = append(pols, Obj{"id": fmt.Sprintf("leak%d", k), "policy": cwf.PolicyToJ(p)})
+			}
 		}
 		fault := Obj{"kind": "none", "at": 1}
 		if total > 0 && g.r.Intn(3) == 0 {
